@@ -101,3 +101,35 @@ def complex_flags(ctx, m):
             want = "complex128" if "complex128" in (a, b) else "float64"
             r.check(got == want, "DiscreteRankOneOperator dtypes (%s, %s)" % (a, b), DO, "DiscreteRankOneOperator.__init__", fn.lineno, "rank-one dtype for (%s, %s)" % (a, b),
                     "factors of dtype %s and %s give an operator of dtype %s, expected %s" % (a, b, got, want))
+
+
+def blocked_to_dense(ctx):
+    """BlockedDiscreteOperator.to_dense: vstack over block rows i of hstack over block columns j of block (i, j)."""
+    from . import roles
+
+    BL = "bempp_cl/api/assembly/blocked_operator.py"
+    r = ctx.rule("BLOCK-DENSE", "blocked discrete operator: to_dense stacks block (i, j) at block row i, block column j (vstack of hstack over all rows / columns)", 1)
+    fn = ctx.repo.mod(BL).fn("BlockedDiscreteOperator.to_dense")
+    defs = roles.Defs(fn)
+    ret = [s for s in ast.walk(fn) if isinstance(s, ast.Return)]
+    ok, why = False, "not of the form vstack(rows) with rows built per block row"
+    if len(ret) == 1 and isinstance(ret[0].value, ast.Call) and unparse(ret[0].value.func).split(".")[-1] == "vstack" and len(ret[0].value.args) == 1 and isinstance(ret[0].value.args[0], ast.Name):
+        rows = ret[0].value.args[0].id
+        loops = [s for s in fn.body if isinstance(s, ast.For) and isinstance(s.target, ast.Name) and unparse(s.iter).replace(" ", "") == "range(self._ndims[0])"]
+        if len(loops) == 1:
+            I = loops[0].target.id
+            apps = [n for n in ast.walk(loops[0]) if isinstance(n, ast.Call) and unparse(n.func) == rows + ".append" and len(n.args) == 1]
+            if len(apps) == 1 and isinstance(apps[0].args[0], ast.Call) and unparse(apps[0].args[0].func).split(".")[-1] == "hstack":
+                row = apps[0].args[0].args[0]
+                rowdef = row
+                if isinstance(row, ast.Name):
+                    d = defs.lookup(row.id, apps[0].lineno)
+                    rowdef = d[1] if d and d[0] == "expr" else None
+                if isinstance(rowdef, ast.ListComp) and len(rowdef.generators) == 1 and isinstance(rowdef.generators[0].target, ast.Name) and not rowdef.generators[0].ifs:
+                    J = rowdef.generators[0].target.id
+                    it_ok = unparse(rowdef.generators[0].iter).replace(" ", "") == "range(self._ndims[1])"
+                    el = unparse(rowdef.elt).replace(" ", "")
+                    el_ok = el in ("self[%s,%s].to_dense()" % (I, J), "self._operators[%s,%s].to_dense()" % (I, J))
+                    ok = it_ok and el_ok
+                    why = "row %s: columns over `%s` (expected range(self._ndims[1])), element `%s` (expected block [%s, %s].to_dense())" % (I, unparse(rowdef.generators[0].iter), unparse(rowdef.elt), I, J)
+    r.check(ok, "BlockedDiscreteOperator.to_dense", BL, "BlockedDiscreteOperator.to_dense", fn.lineno, "blocked to_dense layout", why)
